@@ -43,7 +43,10 @@ def do_call(I, e: ast.Call, fr):
 def call_value(I, callee, args, kwargs, e, fr):
     if isinstance(callee, Alt):
         out = None
-        for c in callee.vals:
+        live = [c for c in callee.vals if not (isinstance(c, Const) and c.v is None)]
+        if not live:
+            raise _Raise("TypeError: 'NoneType' object is not callable", e)
+        for c in live:     # calling None raises: that alternative contributes no value
             out = join(out, call_value(I, c, args, dict(kwargs), e, fr))
         return out
     if isinstance(callee, FuncV):
@@ -75,11 +78,18 @@ def call_repo(I, f, args, kwargs, e, fr, closure=None, self_val=None):
                    and I.heap[args[0].oid].kind == "record" and I.heap[args[0].oid].cls is not None
                    and I.prog.find_method(I.heap[args[0].oid].cls, f.name) is f)
     glue = f.module.name in GLUE_MODULES and not getattr(f, "nested", False)
+    # one-line predicates / accessors (`return <expr>`) are inlined wherever they live: opaque results of
+    # isinstance-style helpers would otherwise fork infeasible paths
+    body = [st for st in f.node.body if not (isinstance(st, ast.Expr) and isinstance(st.value, ast.Constant))]
+    tiny = len(body) == 1 and isinstance(body[0], ast.Return) and body[0].value is not None and \
+        not any(isinstance(n, (ast.ListComp, ast.GeneratorExp, ast.SetComp, ast.DictComp, ast.Lambda)) for n in ast.walk(body[0].value)) and \
+        sum(1 for n in ast.walk(body[0].value) if isinstance(n, ast.Call)) <= 6
+    glue = glue or tiny
     if I.relevant(f) or has_ref_obj or glue or getattr(f, "nested", False) and closure is not None and I.relevant(fr.func):
         if getattr(f, "nested", False) and closure is not None:
             # closures: make the defining frame's variables visible
             saved = None
-        ret = I.call_function(f, list(args), dict(kwargs), e)
+        ret = I.call_function(f, list(args), dict(kwargs), e, closure=closure if getattr(f, "nested", False) else None)
         if any("cache" in d for d in f.decorators):
             # functools.cache / lru_cache: the returned object is handed out again on every later call
             I.mark_shared(ret, f"cache decorator of {f.fq}")
@@ -143,6 +153,10 @@ def call_external(I, dotted, args, kwargs, e, fr):
     short = dotted
     if dotted.startswith("builtins."):
         return call_builtin(I, name, args, kwargs, e, fr)
+    parts = dotted.split(".")
+    if len(parts) >= 2 and parts[-2] == "QuantumCircuit" and args and I.obj(args[0]) is not None and I.obj(args[0]).kind == "circuit":
+        # QuantumCircuit.cx(qc, a, b): the unbound method applied to a circuit
+        return circuit_method(I, args[0], I.obj(args[0]), name, list(args[1:]), kwargs, e, fr)
     if name == "QuantumCircuit" and dotted.startswith("qiskit"):
         width = args[0] if args else None
         return I.new_circuit(t_empty(), site=where(fr, e), width=width)
@@ -179,6 +193,8 @@ def call_external(I, dotted, args, kwargs, e, fr):
         o = I.obj(a)
         if o is not None and o.kind == "circuit" and dotted not in PURE_CIRCUIT_CONSUMERS and not dotted.startswith("qiskit.quantum_info."):
             o.term = t_seq(o.term, ("unknown", f"passed to external {dotted} at {where(fr, e)}"))
+    if dotted.endswith("resources.files"):
+        return Sym("ext:importlib.resources.files", *[a if not isinstance(a, Ref) else I.sym_of(a) for a in args])
     if dotted.startswith("itertools."):
         return Sym(name, *[I.sym_of(a) if isinstance(a, Ref) else a for a in args])
     return I.derive("ext:" + dotted, *args, *kwargs.values())
@@ -393,6 +409,16 @@ def call_method(I, b: Bound, args, kwargs, e, fr):
                 pass
         return I.derive("str." + name, recv, *args)
     if isinstance(recv, Sym):
+        # importlib.resources.files(pkg).joinpath(name).read_text() / (files(pkg) / name).read_text()
+        if recv.tag.endswith("resources.files") and name == "joinpath" and args:
+            return Sym("respath", args[0])
+        if recv.tag == "respath" and name in ("read_text", "open", "read_bytes"):
+            fn = recv.args[0]
+            tag = ("file", vkey(fn))
+            I.events.append(("read-file", fn, where(fr, e), fr.func.fq, e))
+            return Sym("filetext", fn, prov=frozenset([tag]))
+        if recv.tag == "respath" and name in ("is_file", "exists"):
+            return Sym("resexists", recv.args[0])
         if name == "split":
             r = I.new_list(elem=Sym("part", recv, *args, prov=recv.prov), site=where(fr, e))
             I.obj(r).meta["split"] = (recv, tuple(args))
